@@ -15,7 +15,7 @@ CHECKS = {
         level="exploration", design="5/C03",
         technique="runtime mask postconditions on every data-command result + payload-variation metamorphic monitor (three payloads under the mask; CSV read with two missing markers)",
         text="Each generated call of every built-in data command is monitored for: result mask contains the union of the input masks; result mask contains nothing else unless the reference model says the operation is undefined there; and three runs that differ only in the numbers hidden under masked cells give bit-identical visible results. Exploration over random shapes, dtypes, mask placements and parameter sets. A follow-up command on every input afterwards must be missing exactly where that input was specified missing.",
-        note="Trusted: numpy.ma, reference models (for the 'undefined cell' set), stand-in producers. Bounded: <=5 inputs, <=40 cells, lattice values; NaN/inf never generated."),
+        note="Trusted: numpy.ma, reference models (for the 'undefined cell' set), stand-in producers. Bounded: <=5 inputs, <=40 cells (plus the large rasters), lattice values; NaN/inf only underneath missing cells."),
     "C04": dict(
         level="exploration", design="5/C04",
         technique="runtime range postcondition on all 14 fuzzy-producing commands under hostile parameters/data, icontract postcondition on insure_fuzzy, quiescent re-check after a further consumer ran",
@@ -95,7 +95,7 @@ CHECKS = {
         level="exploration", design="5/C17",
         technique="reference comparison of EEMSRead results with harness-written tables (bit-exact), other-column independence monitor, error-line monitor, written-file monitor parsed with the csv module, read-after-write monitor",
         text="Tables with hostile doubles (subnormals, extremes, -0.0, values one ulp from the missing value), int64, headers needing CSV quoting, blank lines, LF/CRLF and every missing-value situation are written by the harness and read through the real command; written files are parsed independently; written-then-read arrays must be bit-identical. Files are rewritten under the same path and re-read by a new program; headers include quoted line breaks and form feeds.",
-        note="Don't-care: text of missing cells in written files, fractional cells read as Integer, NaN/inf, ragged rows."),
+        note="Don't-care: text of missing cells in written files, fractional cells read as Integer, NaN/inf, rows too short to hold the requested column."),
     "C18": dict(
         level="exploration", design="5/C18",
         technique="reference comparison of NetCDF EEMSRead results with variables written directly through netCDF4 for every DataType x MissingValue combination; write-then-read monitor (shape, kind, values, union mask) and template-copy monitor",
@@ -109,6 +109,32 @@ CHECKS = {
 }
 
 PENDING = {}
+
+
+# additions of the fourth strengthening round, appended to the texts above
+ROUND4 = {
+    "C01": " Probe DAGs are also built through add_command with Command objects as references (also inside nested lists); the recorder is cross-checked with the log the probe commands write inside execute().",
+    "C03": " Unsigned inputs, NaN / infinities stored underneath missing cells, CSV files whose missing marker is 0, and rasters of 1-2.1 million cells (mask = union of input masks, payload independence) are included.",
+    "C04": " NaN may be stored underneath missing input cells; six producers are also run on rasters of 1-2.1 million cells (sizes that are and are not multiples of 2^20).",
+    "C05": " Element-wise commands are also run on rasters of 1-2.1 million cells: shape postcondition and window-by-window agreement (values and missing cells) with the command run on the window alone.",
+    "C06": " Rank-2/3 lattice cases are repeated with inputs held in Fortran-order, strided and negative-stride memory.",
+    "C07": " The inputs are recorded before the call and a Sum over the same fields, evaluated after the command under test, must still match the reference; a tenth of the cases carry the optional Metadata argument.",
+    "C08": " Category conversions are also driven with large adjacent integer codes and float codes a hair apart (a category is the cells equal to its raw value).",
+    "C09": " Fields with NaN / infinite non-missing cells and rasters of 1-2.1 million cells are among the watched results.",
+    "C10": " Comments glued to the preceding token are rendered; a fifth of the parse cases go through a Parser object that has parsed other (also malformed) texts before and must behave like a fresh one.",
+    "C11": " Further fault classes: cyclic models with users of the cycle listed first (the line must be a cycle member's), library errors raised without a line from a non-leaf command (the line must stay absent or lie inside that command), undeclared parameters anywhere among the arguments.",
+    "C12": " Incremental use: a model runs, a faulty command and a further writer are added through add_command, and the second run() must be rejected before anything executes or is written.",
+    "C13": " Models whose result arguments are Command objects (the program's own, stand-alone finished commands, commands of another program) are built through add_command and run.",
+    "C14": " In a share of the cases one member of the cycle is absent in a first, failing run, is then added through add_command, and the program is run again.",
+    "C15": " to_file is also pointed at a path that already holds a longer command file.",
+    "C16": " Half of the accepted files are loaded a second time in the same process and must translate to the same program.",
+    "C17": " Rows that are longer or shorter than the header in columns other than the requested one must not influence the column read.",
+    "C18": " The output path may already hold an older dataset (other coordinates, a same-named variable of another type, a stale variable), which must be replaced; a third of the templates have a packed coordinate variable (scale_factor / add_offset), compared unpacked and as stored.",
+    "C19": " Probes include the empty selection, a library that subclasses a command of another requested library under the same name (must fail at construction) and a package whose __init__ defines a command (must not leak into a requested sub-module).",
+    "C20": " Lists mixing equal values of different kinds are judged item by item; worlds with a relative and an empty working directory and with an unfinished command of a class without an output declaration are included (purity is demanded everywhere).",
+}
+for _k, _v in ROUND4.items():
+    CHECKS[_k]["text"] = CHECKS[_k]["text"] + _v
 
 
 def main():
